@@ -3411,7 +3411,7 @@ class C11(Check):
         seen_keys = {}
         shrunk = {}
         t0 = time.time()
-        limit = (75 if ctx.quick else 780)
+        limit = (45 if ctx.quick else 780)  # wall budget of the case loop: directed cases first, random ones until the budget is used
         try:
             for label, sp in self._cases(ctx, wide):
                 if time.time() - t0 > limit:
